@@ -109,10 +109,20 @@ class Model:
         self.mode = {}
 
     # ---- declarations / assignment
-    def declare(self, ex, name, ty, init, env):
-        if init is None:
+    def declare(self, ex, name, ty, init, env, static=False):
+        if static:
+            # a static local keeps the value computed by an EARLIER call of parse_sentence: nothing is known about it here
+            if init is not None:
+                ex.ev(init, env)
+            srt = R_ if ('float' in ty or 'double' in ty) else (B_ if ty.replace('const ', '') == 'bool' else I_)
+            return ex.fresh(f'static_{name}', srt)
+        if init is None or ('std::vector<combinator_result>' in ty and '*' not in ty and '&' not in ty):
             if 'cell_item *' in ty:
                 return Ptr(None)
+            if 'std::vector<combinator_result>' in ty:
+                v = Abstract('localvec')
+                v.state = 'empty'
+                return v
             return None
         v = ex.ev(init, env)
         if isinstance(v, Item) and not ty.endswith('&') and '*' not in ty:
@@ -146,6 +156,8 @@ class Model:
         raise CheckerError(f'initialiser list of type {ty}')
 
     def construct(self, ex, ty, args, node):
+        if 'runtime_error' in ty or 'exception' in ty:
+            return Abstract('exception')
         if len(args) == 1 and isinstance(args[0], Item):
             return Item(dict(args[0].f), args[0].name)
         if ty.startswith('std::pair') and len(args) == 2:
@@ -162,9 +174,17 @@ class Model:
             return self.g.exp(args[0])
         if name == 'lowest':
             return self.g.LOWEST
+        if name in ('log', 'sqrt', 'fabs', 'abs', 'pow', 'log2', 'log10', 'expf', 'logf') and all(z3.is_expr(a) for a in args):
+            # other <cmath> functions: uninterpreted (nothing is assumed about them)
+            f = z3.Function('cmath_' + name, *[a.sort() for a in args], R_)
+            return f(*args)
+        if self.mode.get('call') is not None:
+            return self.mode['call'](ex, name, args, node, env)
         raise CheckerError(f'call of {name} at parsing.h:{line_of(node)} is not modelled')
 
     def call_value(self, ex, f, args, node):
+        if getattr(self, 'call_value_override', None) is not None:
+            return self.call_value_override(ex, f, args, node)
         raise CheckerError('call through a function pointer in the modelled region')
 
     # ---- operators: matrix(), vector[], lambda()
@@ -195,6 +215,8 @@ class Model:
     # ---- methods
     def method(self, ex, obj, name, args, node):
         g = self.g
+        if getattr(self, 'method_override', None) is not None and isinstance(obj, Abstract) and obj.kind in ('cache', 'localvec'):
+            return self.method_override(ex, obj, name, args, node)
         if isinstance(obj, Item):
             if name == 'score':
                 return obj.f['in_score'] + obj.f['out_score']
@@ -222,6 +244,16 @@ class Model:
                 if name in ('cells_starting_at', 'cells_ending_at'):
                     ex.oblige('bounds', z3.And(args[0] >= 0, args[0] <= g.length), node, f'{name}(index) inside length+1 lists')
                     return Abstract('cells', chart=obj, which=name, index=args[0])
+            if k in ('binary_results', 'unary_results'):
+                n = g.NB(obj.x, obj.y) if k == 'binary_results' else g.NU(obj.x)
+                if name == 'empty':
+                    return n == 0
+                if name == 'size':
+                    return n
+                if name in ('front', 'at', 'back'):
+                    kk = z3.IntVal(0) if name == 'front' else (n - 1 if name == 'back' else args[0])
+                    ex.oblige('bounds', z3.And(kk >= 0, kk < n), node, f'{name}() inside the result vector')
+                    return self.result_elem(k, obj, kk)
             if k == 'rootset' and name == 'count':
                 return z3.If(g.is_root(args[0]), z3.IntVal(1), z3.IntVal(0))
             if k == 'pq':
@@ -229,6 +261,16 @@ class Model:
             if k == 'config':
                 pass
         raise CheckerError(f'method {name} on {obj!r} at parsing.h:{line_of(node)} is not modelled')
+
+    def result_elem(self, kind, rng, k):
+        g = self.g
+        if kind == 'unary_results':
+            elem = Rec('combinator_result', dict(cat_id=g.RU_cat(rng.x, k), rule_id=k, head_is_left=g.RU_head(rng.x, k)))
+            elem.ghost = ('unary', rng.x, k)
+        else:
+            elem = Rec('combinator_result', dict(cat_id=g.RB_cat(rng.x, rng.y, k), rule_id=k, head_is_left=g.RB_head(rng.x, rng.y, k)))
+            elem.ghost = ('binary', rng.x, rng.y, k)
+        return elem
 
     # ---- loops
     def for_loop(self, ex, st, env):
@@ -655,3 +697,151 @@ def spec_obligations_leaf(g, m, outs):
                 recs.append(dict(kind='beam-complete', line=0, pc=pc, path=pi, facts=facts + [g.exp(sc) > g.LOWEST], props=('C16',), site='leaf',
                                  goal=g.use_beta, what='with the filter off every popped candidate becomes a leaf item (only pruning_size limits the choice)'))
     return recs
+
+
+# ------------------------------------------------------------------------------ the two memoising lambdas (rule cache)
+def run_lambdas(ast):
+    """apply_binary_rules / apply_unary_rules (lines 280-306): on a cache miss the vector filled by scaffold for (callback, x, y) is stored
+    unchanged under the key and a pointer to the stored vector is returned; on a hit nothing is called.  Any other use of the vector
+    between scaffold and emplace (an unmodelled call that receives it) counts as tampering."""
+    g = Ghost()
+    m = Model(ast, g)
+    fn = ast.function('parse_sentence')
+    body = body_of(fn)
+    recs = []
+    lambdas = []
+    for st in body['inner']:
+        if st['kind'] == 'DeclStmt':
+            for d in st.get('inner', []):
+                if d.get('kind') == 'VarDecl':
+                    def find_lambda(n):
+                        if isinstance(n, dict):
+                            if n.get('kind') == 'LambdaExpr':
+                                return n
+                            for c in n.get('inner', []):
+                                r = find_lambda(c)
+                                if r is not None:
+                                    return r
+                        return None
+                    lam = find_lambda(d)
+                    if lam is not None:
+                        lambdas.append((d['name'], lam))
+    want = {'apply_binary_rules': 'binary_callback', 'apply_unary_rules': 'unary_callback'}
+    if sorted(n for n, _ in lambdas) != sorted(want):
+        raise CheckerError(f'expected the lambdas {sorted(want)}, found {[n for n, _ in lambdas]}')
+    for name, lam in lambdas:
+        op = None
+        for c in lam.get('inner', []):
+            if c.get('kind') == 'CXXRecordDecl':
+                for mm in c.get('inner', []):
+                    if mm.get('kind') == 'CXXMethodDecl' and mm.get('name') == 'operator()':
+                        op = mm
+        if op is None:
+            raise CheckerError(f'lambda {name}: no call operator in the AST')
+        params = [p['name'] for p in op.get('inner', []) if p.get('kind') == 'ParmVarDecl']
+        bodies = [c for c in lam.get('inner', []) if c.get('kind') == 'CompoundStmt'] or [c for c in op.get('inner', []) if c.get('kind') == 'CompoundStmt']
+        if not bodies:
+            raise CheckerError(f'lambda {name}: no body in the AST')
+        lbody = bodies[0]
+        recs.extend(_lambda_records(ast, m, g, name, want[name], lbody, params))
+    return recs
+
+
+def _lambda_records(ast, m, g, name, cbname, lbody, params):
+    """executes the lambda body path by path and states the memo obligations per path"""
+    out = []
+    ex = Exec(ast, m)
+    work = [[]]
+    pi = 0
+    while work:
+        dec = work.pop()
+        ex.reset(dec)
+        log = dict(scaffold=[], emplace=[], at=[], tamper=[], hit=None, thrown=False)
+        env = base_env(g)          # a [&] lambda sees every variable of parse_sentence
+        env.update(cache=Ptr(Abstract('cache')), scaffold=Abstract('fnptr', name='scaffold'), binary_callback=Abstract('cb', name='binary_callback'),
+                   unary_callback=Abstract('cb', name='unary_callback'))
+        args = {p: ex.fresh(p, I_) for p in params}
+        env.update(args)
+
+        def method(ex_, obj, mname, a, node):
+            if isinstance(obj, Abstract) and obj.kind == 'cache':
+                if mname == 'count':
+                    log['hit'] = ex_.branch(ex_.fresh('cache_hit', B_))
+                    log['count_key'] = a[0]
+                    return z3.IntVal(1) if log['hit'] else z3.IntVal(0)
+                if mname == 'emplace':
+                    log['emplace'].append((a[0], getattr(a[1], 'state', None)))
+                    return None
+                if mname == 'at':
+                    log['at'].append(a[0])
+                    return Abstract('stored_vector', key=a[0])
+            if isinstance(obj, Abstract) and obj.kind == 'localvec':
+                obj.state = 'tampered'
+                log['tamper'].append(mname)
+                return None
+            raise CheckerError(f'method {mname} on {obj!r} in lambda {name} is not modelled')
+
+        def call_value(ex_, f, a, node):
+            if isinstance(f, Abstract) and f.kind == 'fnptr':
+                vec = a[3].v if isinstance(a[3], AddrOf) else a[3]
+                if not (isinstance(vec, Abstract) and vec.kind == 'localvec'):
+                    raise CheckerError('scaffold is not given the address of the local result vector')
+                log['scaffold'].append((a[0], a[1], a[2]))
+                vec.state = ('filled-by-scaffold', a[0], a[1], a[2]) if vec.state == 'empty' else 'tampered'
+                return ex_.fresh('scaffold_rc', I_)
+            raise CheckerError('call through an unknown function value')
+
+        def call(ex_, fname, a, node, env_):
+            for x in a:
+                v = x.v if isinstance(x, AddrOf) else x
+                if isinstance(v, Abstract) and v.kind == 'localvec':
+                    v.state = 'tampered'
+                    log['tamper'].append(fname)
+            return None
+        m.mode = dict(call=call)
+        m.method_override, m.call_value_override, m.throw_ok = method, call_value, log
+        kind, val = 'fallthrough', None
+        try:
+            ex.run(lbody, env)
+        except _Return as r:
+            kind, val = 'return', r.v
+        except Infeasible:
+            work.extend(ex.pending)
+            continue
+        except LambdaThrow:
+            kind = 'throw'
+        work.extend(ex.pending)
+        x = args[params[0]]
+        y = args[params[1]] if len(params) > 1 else z3.IntVal(U32 - 1)
+
+        def key_is(k):
+            return z3.And(k.f['first'] == x, k.f['second'] == y) if isinstance(k, Rec) and k.kind == 'pair' else z3.BoolVal(False)
+        add = lambda k, goal, what, props: out.append(dict(kind=k, line=line_of(lbody), goal=goal, pc=list(ex.pc), what=what, props=props, path=pi, facts=[], site=name))
+        if kind == 'throw':
+            add('memo-throw', z3.BoolVal(len(log['scaffold']) == 1 and not log['emplace']), 'an exception leaves the cache untouched', ('C11',))
+        elif kind != 'return' or not (isinstance(val, Ptr) or isinstance(val, AddrOf) or isinstance(val, Abstract)):
+            add('memo-return', z3.BoolVal(False), 'the lambda returns a pointer to the cached vector', ('C11', 'C12', 'C02'))
+        else:
+            tgt = val.v if isinstance(val, AddrOf) else (val.target if isinstance(val, Ptr) else val)
+            ok_ret = isinstance(tgt, Abstract) and tgt.kind == 'stored_vector'
+            add('memo-return', z3.And(z3.BoolVal(bool(ok_ret)), key_is(tgt.key) if ok_ret else z3.BoolVal(False)),
+                'the lambda returns the vector stored under (x, y)', ('C11', 'C12', 'C02'))
+            if log['hit']:
+                add('memo-hit', z3.BoolVal(not log['scaffold'] and not log['emplace'] and not log['tamper']),
+                    'on a cache hit neither the grammar nor the cache is touched', ('C11',))
+            else:
+                ok = (len(log['scaffold']) == 1 and len(log['emplace']) == 1 and not log['tamper'])
+                conj = [z3.BoolVal(bool(ok))]
+                if ok:
+                    cb, sx, sy = log['scaffold'][0]
+                    conj += [z3.BoolVal(isinstance(cb, Abstract) and getattr(cb, 'name', None) == cbname), sx == x, sy == y]
+                    ek, est = log['emplace'][0]
+                    conj += [key_is(ek), z3.BoolVal(isinstance(est, tuple) and est[0] == 'filled-by-scaffold')]
+                add('memo-miss', z3.And(*conj), 'on a miss the vector filled by scaffold(callback, x, y) is stored unchanged under (x, y)', ('C11', 'C12', 'C02'))
+            add('memo-key', key_is(log.get('count_key')) if log.get('count_key') is not None else z3.BoolVal(False), 'the cache is probed with the key (x, y)', ('C11',))
+        pi += 1
+    return out
+
+
+class LambdaThrow(Exception):
+    pass
